@@ -2,6 +2,39 @@ import AnsiProofs.Props.C06d
 import AnsiProofs.Props.C09c
 import AnsiProofs.Props.C12b
 import AnsiModel.Generated.Methods
+/-
+  Property C04, part c — the *generated* (statement-by-statement translated) body of
+  `AnsiString.__getitem__` (`Gen.getItemCore` of `AnsiModel/Generated/Methods.lean`: the statements
+  after `new_s._s = self._s[val]`) computes exactly what the hand-written model says
+  (`AStr.getRange`, `AnsiModel/Slice.lean`) on values whose table is sorted; the outcomes `Exc.key`
+  (the fetch `self._fmts[idx]` of the iterator) and `Exc.outside` (a negative key `idx - st`, `None`
+  where the list `previous_settings` is needed) never happen there.
+
+  The file is split in two:
+
+  * `namespace C04c.L` — everything that does not mention `Gen.getItemCore`:
+    - `round`: one round of the `for` loop as a function on the loop state
+      `(previous_settings, new_s, settings_initialized, current_settings, done)`; `loopS`: the rounds
+      over a table, nothing changing once `done` (Python's `break`) is set;
+    - `RoundSpec fm st en n step`: what a step function has to do to be that round — a no-op on a
+      state with `done`, and `round` on a key of the table `fm` given as the Python `int`;
+    - `fold_loop`: for *any* step function meeting `RoundSpec`, `List.foldlM` over the ascending keys
+      of a sorted table is `loopS` (here `SortedKeys` is used: the key under the cursor is found by
+      `Fmts.get?`, which stops early, because everything before it is smaller);
+    - `loopS_getLoop`: `loopS` is the model's `AStr.getLoop` over `replayFrom cur` of the table, with
+      `previous_settings : Option (List Setting)` read as the list it holds (`None` as `[]`) and the
+      text of `new_s` untouched;
+    - the primitives on the keys used (`get_some`, `set_zero`, `set_sub`), `Py.truthyOptList`/`Py.optGet`.
+  * `namespace C04c` — the theorems over `Gen.getItemCore`: `unfold`, the loop rewritten by `fold_loop`
+    with the spec of the round discharged for the generated lambda by case distinction on the position
+    of the key and `simp`, the statements after the loop by one `simp only` with the lemmas of
+    `C06d.L` (`has_nat`, `set_nat`, `get_nat`, `modifyAt_nat`, `find_lt_zero`, …).  The same script was
+    run unchanged against a rewritten variant of the generated function (`len(new_s._s) == 0`,
+    `idx > en or len(self._s) < idx`, `en == idx`, `if not settings.rem: pass else: …`, `st < idx`,
+    `previous_settings and not settings_initialized`, the assignment of `previous_settings` factored
+    out behind the `if`/`elif` chain, `if not previous_settings: return new_s`,
+    `if new_len in new_s._fmts: pass else: …`, no trailing rebinding) and passed.
+-/
 
 namespace C04c
 namespace L
@@ -138,14 +171,21 @@ theorem truthy_none : Py.truthyOptList (none : Option (List Setting)) = false :=
 theorem truthy_some (l : List Setting) : Py.truthyOptList (some l) = !l.isEmpty := rfl
 theorem optGet_some (l : List Setting) : Py.optGet (some l) = (.ok l : Except Exc _) := rfl
 
-theorem point_eta (p : Point) : ({ add := p.add, rem := p.rem } : Point) = p := rfl
-
 end L
 
 open L C06d.L
 
+/-- the method was translated (it did not fall outside the translator's fragment) -/
 theorem translated : Gen.getItemCoreOk = true := by decide
 
+/-- closes what `simp` leaves of a branch of the round: `if`s on the emptiness of a list that occur on
+    both sides -/
+local macro "leaf" : tactic => `(tactic| (repeat' split) <;> simp_all [bind_ok])
+
+set_option linter.unusedSimpArgs false in
+/-- THE GENERATED `__getitem__` IS THE MODEL'S `getRange`: with `new_s._s = self._s[st:en]` already
+    assigned, the statements of `__getitem__` translated from the source end normally with exactly the
+    model's value — no `KeyError`, nothing outside the model's representation -/
 theorem getItemCore_is_code (x : AStr) (hs : SortedKeys x.fmts) (st en : Nat) :
     Gen.getItemCore x { s := pySlice x.s st en, fmts := [] } (st : Int) (en : Int) =
       .ok (x.getRange st en) := by
@@ -156,8 +196,13 @@ theorem getItemCore_is_code (x : AStr) (hs : SortedKeys x.fmts) (st en : Nat) :
     simp [this]
   | false =>
     have hse : st ≤ en := by
-      sorry
-    simp only [Bool.not_false, Bool.not_true, Bool.false_eq_true, if_false]
+      have h := congrArg List.length (show pySlice x.s st en = (x.s.take en).drop st from rfl)
+      have hne : (pySlice x.s st en).length ≠ 0 := by
+        intro h0; rw [List.length_eq_zero_iff.mp h0] at htext; cases htext
+      rw [List.length_drop, List.length_take] at h
+      omega
+    simp only [htext, length_eq_zero_dec, length_ne_zero_dec, length_pos_dec, Bool.not_false, Bool.not_true,
+      Bool.false_eq_true, if_false]
     rw [fold_loop (st := st) (en := en) (n := x.len) ?spec hs]
     case spec =>
       constructor
@@ -166,9 +211,93 @@ theorem getItemCore_is_code (x : AStr) (hs : SortedKeys x.fmts) (st en : Nat) :
       · intro o ns init cur k p hg
         simp only [get_some hg, bind_ok, C09c.iter_step_is_code]
         unfold round
-        trace_state
-        sorry
-    trace_state
-    sorry
+        simp only [AStr.len]
+        by_cases h1 : k > x.s.length ∨ k > en
+        · rcases h1 with h | h <;> simp [h]
+        · have a1 : ¬ x.s.length < k := by omega
+          have a2 : ¬ en < k := by omega
+          by_cases h2 : k = en
+          · subst h2
+            simp [a1, set_sub _ _ _ _ hse, bind_ok] <;> leaf
+          · have h2' : ¬ en = k := by omega
+            by_cases h3 : k = st
+            · subst h3
+              simp [a1, a2, h2, h2', set_zero, bind_ok, Int.natCast_inj] <;> leaf
+            · have h3' : ¬ st = k := by omega
+              by_cases h4 : k > st
+              · have h4' : st ≤ k := by omega
+                cases init <;> cases o <;>
+                  simp [a1, a2, h2, h2', h3, h3', h4, set_sub _ _ _ _ h4', set_zero, bind_ok, truthy_none,
+                    truthy_some, optGet_some, Int.natCast_inj] <;> leaf
+              · simp [a1, a2, h2, h2', h3, h3', h4, Int.natCast_inj, bind_ok] <;> leaf
+    obtain ⟨o', f', init', c', d', hl, hr⟩ :=
+      loopS_getLoop st en x.len x.fmts none { s := pySlice x.s st en, fmts := [] } false []
+    have hr' : AStr.getLoop st en x.len [] false [] (replay x.fmts) = (o'.getD [], init', f') := hr.symm
+    rw [hl, hr']
+    simp only [bind_ok, htext, length_eq_zero_dec, length_ne_zero_dec, length_pos_dec, Bool.not_false,
+      Bool.not_true, Bool.false_eq_true, if_false]
+    cases o' with
+    | none => simp [truthy_none, bind_ok]
+    | some l =>
+      cases hle : l.isEmpty <;> cases init' <;>
+        simp only [truthy_some, optGet_some, hle, set_zero, has_nat, set_nat, get_nat, modifyAt_nat, find_lt_zero,
+          ensure_eq, contains_ensure_self, bind_ok, ite_ok, ite_bnot, ite_bnot_fmts, ite_astr,
+          Option.getD_some, Bool.not_true, Bool.not_false, Bool.false_eq_true, Bool.and_true, Bool.and_false,
+          Bool.true_and, Bool.false_and, and_true, and_false, true_and, false_and, if_false, if_true]
+
+/-- under the same hypotheses the translated statements raise nothing: no `KeyError` from the fetch of
+    the point of a key, nothing outside the model's representation (no negative key `idx - st`, no
+    `None` where the list `previous_settings` is needed), no Python exception -/
+theorem getItemCore_never_outside (x : AStr) (hs : SortedKeys x.fmts) (st en : Nat) (err : Exc) :
+    Gen.getItemCore x { s := pySlice x.s st en, fmts := [] } (st : Int) (en : Int) ≠ .error err := by
+  rw [getItemCore_is_code x hs st en]
+  intro h; cases h
+
+/-! ## Non-vacuity: a concrete value -/
+
+/-- "abcdef", object 0 (`31`) from 0 to 6, object 1 (`1`) from 2 to 4 -/
+def x0 : AStr :=
+  { s := "abcdef".toList,
+    fmts := [(0, { add := [⟨0, "31".toList⟩] }), (2, { add := [⟨1, "1".toList⟩] }),
+             (4, { rem := [⟨1, "1".toList⟩] }), (6, { rem := [⟨0, "31".toList⟩] })] }
+
+example : SortedKeys x0.fmts := by simp [x0, SortedKeys]
+
+example : Gen.getItemCore x0 { s := pySlice x0.s 1 5, fmts := [] } 1 5 = .ok (x0.getRange 1 5) := by
+  decide +kernel
+example : Gen.getItemCore x0 { s := pySlice x0.s 2 4, fmts := [] } 2 4 = .ok (x0.getRange 2 4) := by
+  decide +kernel
+example : Gen.getItemCore x0 { s := pySlice x0.s 3 3, fmts := [] } 3 3 = .ok (x0.getRange 3 3) := by
+  decide +kernel
+example : Gen.getItemCore x0 { s := pySlice x0.s 0 6, fmts := [] } 0 6 = .ok (x0.getRange 0 6) := by
+  decide +kernel
+example : Gen.getItemCore x0 { s := pySlice x0.s 3 9, fmts := [] } 3 9 = .ok (x0.getRange 3 9) := by
+  decide +kernel
+
+/-- the values themselves: the settings active at the cut are started at 0, the ones still running at
+    the end are stopped at the new length -/
+example : Gen.getItemCore x0 { s := pySlice x0.s 1 5, fmts := [] } 1 5 = .ok
+    { s := "bcde".toList,
+      fmts := [(0, { add := [⟨0, "31".toList⟩] }), (1, { add := [⟨1, "1".toList⟩] }),
+               (3, { rem := [⟨1, "1".toList⟩] }), (4, { rem := [⟨0, "31".toList⟩] })] } := by
+  decide +kernel
+
+example : Gen.getItemCore x0 { s := pySlice x0.s 3 5, fmts := [] } 3 5 = .ok
+    { s := "de".toList,
+      fmts := [(0, { add := [⟨0, "31".toList⟩, ⟨1, "1".toList⟩] }), (1, { rem := [⟨1, "1".toList⟩] }),
+               (2, { rem := [⟨0, "31".toList⟩] })] } := by
+  decide +kernel
+
+example : Gen.getItemCore x0 { s := pySlice x0.s 3 3, fmts := [] } 3 3 = .ok { s := [], fmts := [] } := by
+  decide +kernel
+
+/-- the hypothesis `SortedKeys` is needed: on a table out of order the fetch of the point meets `Exc.key` -/
+example : Gen.getItemCore { s := "abc".toList, fmts := [(2, {}), (0, {})] }
+    { s := "abc".toList, fmts := [] } 0 3 = .error .key := by
+  decide +kernel
 
 end C04c
+
+#print axioms C04c.translated
+#print axioms C04c.getItemCore_is_code
+#print axioms C04c.getItemCore_never_outside
